@@ -452,12 +452,12 @@ type plan struct {
 func plans(thorough bool) []plan {
 	if thorough {
 		return []plan{
-			{"stream", 2, false, []int{1, 5000, 70000}, 6, 10, 4},
-			{"stream", 2, true, []int{1, 70000}, 6, 0, 0}, // no holds: with a held writer the dial order on ONE channel is undefined
-			{"stream", 3, false, []int{1, 70000}, 5, 10, 3},
-			{"ws", 2, false, []int{1, 70000}, 5, 10, 3},
-			{"stdio", 2, false, []int{1, 70000}, 5, 0, 0},
-			{"dns", 2, false, []int{1, 5000}, 4, 0, 0},
+			{"stream", 2, false, []int{1, 5000, 70000}, 7, 10, 4},
+			{"stream", 2, true, []int{1, 70000}, 7, 0, 0}, // no holds: with a held writer the dial order on ONE channel is undefined
+			{"stream", 3, false, []int{1, 70000}, 6, 10, 3},
+			{"ws", 2, false, []int{1, 70000}, 6, 10, 3},
+			{"stdio", 2, false, []int{1, 70000}, 6, 0, 0},
+			{"dns", 2, false, []int{1, 5000}, 5, 0, 0},
 		}
 	}
 	return []plan{
